@@ -361,8 +361,11 @@ fn judge(run: &Run, doc: &Doc, o: &Opt) {
             if effect == "panic" {
                 sig = Some(format!("C20:panic:{}", vcore::obs::panic_site(&detail)));
             }
-            let repairs: [(&str, &dyn Fn(&mut Doc)); 5] = [
+            let repairs: [(&str, &dyn Fn(&mut Doc)); 6] = [
                 ("C20:comment:cr-injects-content", &|d: &mut Doc| d.map_comments(&|c| c.replace('\r', ""))),
+                ("C20:comment:control-char-alters-document", &|d: &mut Doc| {
+                    d.map_comments(&|c| c.chars().filter(|ch| !((ch.is_control() && !matches!(ch, '\n' | '\t')) || *ch == '\u{feff}')).collect())
+                }),
                 ("C20:space-after:string-kept-with-trailing-breaks-gains-a-line-break", &|d: &mut Doc| {
                     if let Some(t) = &mut d.tail {
                         t.0 = t.0.trim_end_matches('\n').to_string();
